@@ -62,7 +62,7 @@ Proof.
     rewrite and_never.
     destruct (att && polls (ls_counter s1) && rho (ls_counter s1)).
     { intros E. injection E as <- <-. left. reflexivity. }
-    destruct (m_act m state (t_sym nx) (map t_sym (tl input))) as [st|rule| |row].
+    destruct (m_act m state (t_sym nx) _) as [st|rule| |row].
     + apply IH.
     + destruct (length stack <=? Z.to_nat (m_rule_len m rule))%nat; [intros E; right; exact E|].
       destruct (if lt_recursive lt then lt_rule lt rule else None) as [lr|].
@@ -110,7 +110,7 @@ Proof.
   rewrite and_never.
   destruct (att && polls (ls_counter s1) && rho (ls_counter s1)).
   { intros <-. left. exists s1. reflexivity. }
-  destruct (m_act m (xc_state x) (t_sym nx) (map t_sym (tl (xc_input x)))) as [st|rule| |row];
+  destruct (m_act m (xc_state x) (t_sym nx) _) as [st|rule| |row];
     try (intros E; right; exact E).
   destruct (lt_rule lt rule) as [lr|]; [|intros E; right; exact E].
   destruct (eval_cases (look_top m lt attempts eoi_off rho lfuel (xc_input x)) (lt_final lt) (lr_cases lr) (lr_default lr) s1)
@@ -152,7 +152,7 @@ Proof.
                                  end = LContinue c' -> exists evs, xc_events (lc_x c') = xc_events x ++ evs).
   { intros m' s2. destruct (xstep m' evt fixws eoi_off x) as [x'|o] eqn:Ex; [|discriminate].
     intros E. injection E as <-. cbn [lc_x]. eapply xstep_events. exact Ex. }
-  destruct (m_act m (xc_state x) (t_sym nx) (map t_sym (tl (xc_input x)))) as [st|rule| |row]; try apply Hplain.
+  destruct (m_act m (xc_state x) (t_sym nx) _) as [st|rule| |row]; try apply Hplain.
   destruct (lt_rule lt rule) as [lr|]; [|apply Hplain].
   destruct (eval_cases _ _ _ _ _) as [[sym|o] s2]; [apply Hplain|discriminate].
 Qed.
@@ -269,7 +269,7 @@ Proof.
     destruct (att && polls (ls_counter s1) && rho (ls_counter s1)).
     { intros E. injection E as <- <-. exact Ht. }
     assert (Hs1 : ls_counter s1 < P) by (destruct Ht as (_ & _ & Ht); auto).
-    destruct (m_act m state (t_sym nx) (map t_sym (tl input))) as [st|rule| |row].
+    destruct (m_act m state (t_sym nx) _) as [st|rule| |row].
     + intros E. eapply lbound_trans; [exact Ht|]. eapply IH; [exact Hs1|exact E].
     + destruct (length stack <=? Z.to_nat (m_rule_len m rule))%nat; [intros E; injection E as <- <-; exact Ht|].
       destruct (if lt_recursive lt then lt_rule lt rule else None) as [lr|].
@@ -329,7 +329,7 @@ Proof.
             | LStop o s => lbound (lc_s c) s (is_ctx o)
             end).
   { intros m' s2 H2. destruct (xstep m' evt fixws eoi_off x); exact H2. }
-  destruct (m_act m (xc_state x) (t_sym nx) (map t_sym (tl (xc_input x)))) as [st|rule| |row];
+  destruct (m_act m (xc_state x) (t_sym nx) _) as [st|rule| |row];
     try (apply Hplain; exact Ht).
   destruct (lt_rule lt rule) as [lr|]; [|apply Hplain; exact Ht].
   destruct (eval_cases (look_top m lt attempts eoi_off rho lfuel (xc_input x)) (lt_final lt) (lr_cases lr) (lr_default lr) s1)
